@@ -45,8 +45,8 @@ macro_rules! uint_item {
     ($out:expr, $t:ty, $name:expr, $v:expr) => {{
         let v: $t = $v;
         let b = enc(&v);
-        let back = <$t>::decode(&mut b.as_slice()).unwrap();
-        let _ = writeln!($out, "item t={} v={} hex={} rt={} small={} est={}", $name, v, hex(&b), (back == v) as u8, small(&v), v.estimated_size());
+        let back = <$t>::decode(&mut b.as_slice()).ok();
+        let _ = writeln!($out, "item t={} v={} hex={} rt={} small={} est={}", $name, v, hex(&b), (back == Some(v)) as u8, small(&v), v.estimated_size());
     }};
 }
 
@@ -82,20 +82,20 @@ pub fn main(args: &Args) -> i32 {
     for bits in [0u32, 0x8000_0000, 0x7f80_0000, 0xff80_0000, 0x7fc0_0001, 0x3f80_0000, rng.next() as u32, rng.next() as u32] {
         let f = f32::from_bits(bits);
         let b = enc(&f);
-        let back = f32::decode(&mut b.as_slice()).unwrap();
-        let _ = writeln!(out, "item t=f32 v={} hex={} rt={} small={} est={}", bits, hex(&b), (back.to_bits() == bits) as u8, small(&f), f.estimated_size());
+        let back = f32::decode(&mut b.as_slice()).ok();
+        let _ = writeln!(out, "item t=f32 v={} hex={} rt={} small={} est={}", bits, hex(&b), (back.map(|x| x.to_bits()) == Some(bits)) as u8, small(&f), f.estimated_size());
     }
     for bits in [0u64, 1 << 63, 0x7ff0_0000_0000_0000, 0x7ff8_0000_0000_0001, 0x3ff0_0000_0000_0000, rng.next(), rng.next()] {
         let f = f64::from_bits(bits);
         let b = enc(&f);
-        let back = f64::decode(&mut b.as_slice()).unwrap();
-        let _ = writeln!(out, "item t=f64 v={} hex={} rt={} small={} est={}", bits, hex(&b), (back.to_bits() == bits) as u8, small(&f), f.estimated_size());
+        let back = f64::decode(&mut b.as_slice()).ok();
+        let _ = writeln!(out, "item t=f64 v={} hex={} rt={} small={} est={}", bits, hex(&b), (back.map(|x| x.to_bits()) == Some(bits)) as u8, small(&f), f.estimated_size());
     }
     // bool
     for v in [false, true] {
         let b = enc(&v);
-        let back = bool::decode(&mut b.as_slice()).unwrap();
-        let _ = writeln!(out, "item t=bool v={} hex={} rt={} small={} est={}", v as u8, hex(&b), (back == v) as u8, small(&v), v.estimated_size());
+        let back = bool::decode(&mut b.as_slice()).ok();
+        let _ = writeln!(out, "item t=bool v={} hex={} rt={} small={} est={}", v as u8, hex(&b), (back == Some(v)) as u8, small(&v), v.estimated_size());
     }
     for bad in [2u8, 3, 127, 128, 255, rng.range(2, 255) as u8] {
         let r = bool::decode(&mut [bad].as_slice());
@@ -106,12 +106,12 @@ pub fn main(args: &Args) -> i32 {
         let len = match i % 5 { 0 => 0, 1 => 1, 2 => rng.range(2, 40), 3 => rng.range(41, 200), _ => rng.range(0, 16) } as usize;
         let data: Vec<u8> = (0..len).map(|_| if rng.chance(1, 3) { 0x41 } else { rng.next() as u8 }).collect();
         let b = enc(&data);
-        let back = Vec::<u8>::decode(&mut b.as_slice()).unwrap();
+        let back = Vec::<u8>::decode(&mut b.as_slice()).ok();
         let bb = bytes::Bytes::from(data.clone());
         let b2 = enc(&bb);
-        let back2 = bytes::Bytes::decode(&mut b2.as_slice()).unwrap();
+        let back2 = bytes::Bytes::decode(&mut b2.as_slice()).ok();
         let _ = writeln!(out, "item t=vec data={} hex={} rt={} small={} est={} same_as_bytes={}", hex(&data), hex(&b),
-            (back == data && back2 == bb) as u8, small(&data), data.estimated_size(), (b == b2) as u8);
+            (back.as_ref() == Some(&data) && back2.as_ref() == Some(&bb)) as u8, small(&data), data.estimated_size(), (b == b2) as u8);
         // truncated input must be an error, never a shorter value
         if b.len() > 8 {
             let cut = rng.range(8, b.len() as u64 - 1) as usize;
@@ -122,8 +122,8 @@ pub fn main(args: &Args) -> i32 {
     for s in ["", "a", "héllo wörld", "日本語テキスト", "🦀🦀", "plain ascii text 0123456789"] {
         let st = s.to_string();
         let b = enc(&st);
-        let back = String::decode(&mut b.as_slice()).unwrap();
-        let _ = writeln!(out, "item t=string data={} hex={} rt={} small={} est={}", hex(s.as_bytes()), hex(&b), (back == st) as u8, small(&st), st.estimated_size());
+        let back = String::decode(&mut b.as_slice()).ok();
+        let _ = writeln!(out, "item t=string data={} hex={} rt={} small={} est={}", hex(s.as_bytes()), hex(&b), (back.as_ref() == Some(&st)) as u8, small(&st), st.estimated_size());
     }
     for bad in [vec![0xffu8], vec![0xc3, 0x28], vec![0x61, 0x80], vec![0xf0, 0x28, 0x8c, 0x28]] {
         let mut b = enc(&bad.len());
@@ -146,9 +146,9 @@ pub fn main(args: &Args) -> i32 {
             let header = EntryHeader { key_len: info.key_len as u32, value_len: info.value_len as u32, hash, sequence: seq, checksum, compression: comp };
             let mut hb = vec![0u8; EntryHeader::serialized_len()];
             header.write(&mut hb.as_mut_slice());
-            let hback = EntryHeader::read(hb.as_slice()).unwrap();
-            let (k2, v2): (u64, Vec<u8>) = EntryDeserializer::deserialize(&payload, info.key_len, info.value_len, comp, Some(checksum)).unwrap();
-            let rt = (k2 == key && v2 == value && hback == header) as u8;
+            let hback = EntryHeader::read(hb.as_slice()).ok();
+            let back: Option<(u64, Vec<u8>)> = EntryDeserializer::deserialize(&payload, info.key_len, info.value_len, comp, Some(checksum)).ok();
+            let rt = (back.as_ref() == Some(&(key, value.clone())) && hback.as_ref() == Some(&header)) as u8;
             let cname = match comp { Compression::None => "none", Compression::Zstd => "zstd", Compression::Lz4 => "lz4" };
             if matches!(comp, Compression::None) && vlen <= 300 {
                 let _ = writeln!(out, "item t=entry comp=none hash={hash} seq={seq} key={key} vdata={} klen={} vlen={} checksum={checksum} hex={}{} rt={rt}",
